@@ -68,8 +68,9 @@ ProgsRnQ == Combos([g \in G3 |-> CASE g = 1 -> {<<"Read">>}
 ProgsKuQ == Combos([g \in G3 |-> CASE g = 1 -> {<<"Read", "Read">>}
                                    [] g = 2 -> {<<"Write", "Write2">>}
                                    [] g = 3 -> {<<"ConnState", "Close">>, <<"Write">>}])
-KuTags == {"ku_wait"}
-RnTags == {"rn", "rn_wait"}
+KuTags == {"ku_wait", "bad_wait"}
+RnTags == {"rn", "rn_wait", "bad_wait"}
+BadTags == {"bad_wait"}
 
 \* generation: programs over all call kinds, any role on any goroutine
 AnyMenu == ReaderMenuT \cup WriterMenuT \cup CloserMenuT
